@@ -141,6 +141,102 @@ C05RoundTrip == \A r \in Full : DecodeTagged(Tagged(reg[r])) = Ok(reg[r])
 C06Step == (Op = "decode_wire" /\ OkStep) => Tagged(Res) = Alias24(Arg(1))
 C06Prop == [][C06Step]_vars
 
+(* ---- C09 ---------------------------------------------------------------*)
+(* signing makes the signer verify; obscuring / adding assertions never changes any verdict;
+   a different subject never verifies under an old signature *)
+C09Step ==
+  /\ (Op \in {"add_signature", "sign"} /\ OkStep) => HasSignatureFrom(Res, Arg(2))
+  /\ (Op = "add_signature" /\ OkStep) =>
+        (\A k \in Signers \ {Arg(2)} : HasSignatureFrom(Res, k) <=> HasSignatureFrom(Src, k))
+  /\ (Op \in {"elide_set", "add_assertion"} /\ OkStep /\ Dg(Subject(Res)) = Dg(Subject(Src))
+        /\ (Op = "elide_set" => \A o \in SignedObjects(Src) : o \in SignedObjects(Res))) =>
+        (\A k \in Signers : HasSignatureFrom(Src, k) => HasSignatureFrom(Res, k))
+  /\ (Op = "forge_signed" /\ OkStep /\ Arg(2) # "decorated") =>
+        (\A k \in Signers : HasSignatureFrom(Res, k) <=> HasSignatureFrom(Src, k))
+  /\ (Op = "forge_signed" /\ OkStep /\ Arg(2) = "decorated") => HasSignatureFrom(Res, Arg(3))
+C09Prop == [][C09Step]_vars
+
+(* ---- C10 ---------------------------------------------------------------*)
+C10Step ==
+  /\ (Op = "encrypt_subject_to_recipients" /\ OkStep) =>
+        /\ Dg(Subject(Res)) = Dg(Subject(Src))
+        /\ \A i \in 1..Len(Arg(2)) :
+              LET d == DecryptSubjectToRecipient(Res, Arg(2)[i]) IN
+              IsOk(d) /\ Subject(Val(d)) = Subject(Src) /\ Dg(Val(d)) = Dg(Res)
+        /\ \A r \in Recipients : (\A i \in 1..Len(Arg(2)) : Arg(2)[i] # r) => ~IsOk(DecryptSubjectToRecipient(Res, r))
+  /\ (Op = "encrypt_to_recipient" /\ OkStep) =>
+        /\ DecryptToRecipient(Res, Arg(2)) = Ok(Src)
+        /\ \A r \in Recipients \ {Arg(2)} : ~IsOk(DecryptToRecipient(Res, r))
+  /\ (Op = "seal" /\ OkStep) =>
+        /\ Unseal(Res, Arg(2), Arg(3)) = Ok(Src)
+        /\ \A s \in Signers \ {Arg(2)} : ~IsOk(Unseal(Res, s, Arg(3)))
+        /\ \A r \in Recipients \ {Arg(3)} : ~IsOk(Unseal(Res, Arg(2), r))
+  /\ (Op \in {"add_recipient", "share_with"} /\ OkStep) =>
+        \* earlier recipients can still open, and get the same subject
+        \A r \in Recipients :
+           (RecipientUnambiguous(Src, r) /\ RecipientUnambiguous(Res, r) /\ IsOk(DecryptSubjectToRecipient(Src, r))) =>
+              LET d == DecryptSubjectToRecipient(Res, r) IN
+              IsOk(d) /\ Subject(Val(d)) = Subject(Val(DecryptSubjectToRecipient(Src, r)))
+C10Prop == [][C10Step]_vars
+
+(* ---- C11 ---------------------------------------------------------------*)
+C11Step ==
+  (Op = "sskr_split_join") =>
+     LET e == Src  k == Arg(2)  policy == Arg(3)  S == Arg(4) IN
+     /\ OkStep <=> (S # {} /\ Quorum(policy, S))
+     /\ OkStep => Res = Subject(Val(DecryptSubject(e, k)))
+C11Prop == [][C11Step]_vars
+
+(* ---- C12 ---------------------------------------------------------------*)
+C12Step ==
+  (Op = "proof_contains_set") =>
+     LET e == Src  T == Arg(2) IN
+     /\ OkStep <=> T \subseteq AllDigests(e)                          \* produced iff every target occurs
+     /\ OkStep =>
+          /\ Dg(Res) = Dg(e)                                           \* same root
+          /\ (~NestedTargets(e, T)) => ConfirmContainsSet(Elided(Dg(e)), T, Res)   \* accepted (see DESIGN: nested targets)
+          (* minimal disclosure: whatever is not elided lies on a path from the root to a target,
+             and no target is disclosed *)
+          /\ \A p \in Paths(Res) : ~IsElided(At(Res, p)) =>
+                 /\ Dg(At(e, p)) \in RevealSet(e, T)
+                 /\ Dg(At(e, p)) \notin T \/ IsElided(At(e, p))
+          /\ Paths(Res) \subseteq Paths(e)
+C12Prop == [][C12Step]_vars
+
+(* ---- C17 ---------------------------------------------------------------*)
+SaltOps == {"add_salt", "add_salt_with_len", "add_salt_in_range"}
+C17Step ==
+  /\ (Op \in SaltOps /\ OkStep) =>
+        /\ Subject(Res) = Subject(Src)
+        /\ Assertions(Src) \subseteq Assertions(Res)
+        /\ \E a \in Assertions(Res) \ Assertions(Src) :
+              /\ Assertions(Res) = Assertions(Src) \cup {a}
+              /\ IsAssn(a) /\ a[2] = KV(KvSalt) /\ IsSaltLeaf(a[3])
+  /\ (Op = "add_salt_with_len") => (ErrStep <=> Arg(2) < 8)
+  /\ (Op = "add_salt_in_range") => (ErrStep <=> Arg(2) < 8)
+  /\ (Op = "add_assertion_salted" /\ OkStep /\ Arg(4)) =>
+        \E a \in Assertions(Res) \ Assertions(Src) :
+           /\ Assertions(Res) = Assertions(Src) \cup {a}
+           /\ a \in AssertionsWithPredicate(Res, Arg(2))            \* still found by its predicate
+           /\ IsNode(a) /\ a[2] = Assn(Arg(2), Arg(3))
+           /\ Cardinality(a[3]) = 1 /\ \A s \in a[3] : IsAssn(s) /\ s[2] = KV(KvSalt) /\ IsSaltLeaf(s[3])
+  /\ (Op = "add_assertion_salted" /\ OkStep /\ ~Arg(4)) => Res = AddAssertion(Src, Arg(2), Arg(3))
+C17Prop == [][C17Step]_vars
+
+(* ---- C19 ---------------------------------------------------------------*)
+C19Step ==
+  /\ (Op = "add_attachment" /\ OkStep) =>
+        LET a == AttachmentAssn(reg[Arg(2)], Arg(3), Arg(4)) IN
+        /\ ValidAttachment(a)
+        /\ AttVendor(a) = Arg(3) /\ AttConform(a) = Arg(4) /\ Subject(a[3])[2] = reg[Arg(2)]
+        /\ (\A x \in AssertionsWithPredicate(Res, KV(KvAttachment)) : ValidAttachment(x)) =>
+              \E y \in Val(Attachments(Res, Arg(3), Arg(4))) : Dg(y) = Dg(a)
+  /\ (Op = "add_bad_attachment" /\ OkStep) => ~IsOk(Attachments(Res, NoStr, NoStr))
+  /\ (Op = "add_type" /\ OkStep) =>
+        /\ HasType(Res, Arg(2))
+        /\ \A t \in TypeVals : (Dg(t) # Dg(Arg(2))) => (HasType(Res, t) <=> HasType(Src, t))
+C19Prop == [][C19Step]_vars
+
 (* ---- C07 ---------------------------------------------------------------*)
 C07Laws ==
   \A r1 \in Full, r2 \in Full, r3 \in Full :
